@@ -19,8 +19,9 @@ call-depth budget.
   * `match` type patterns naming a type of the type table (`case int:` is `type(s) == int`).
 
 Main statements (all for every `B` with `BuiltinsOK B`: built-ins map data to data; every environment with
-`StdEnv B env`: no stored programs, no functions bound by the caller, parameters bound to data — no
-identifier or code block inside — and not named like a built-in function or macro):
+`StdEnv B env`: a run-time environment (not the compiler's own interpreter, the only one whose
+unresolved-name flag is read) without stored programs, no functions bound by the caller, parameters bound to
+data — no identifier or code block inside — and not named like a built-in function or macro):
   `compile_correct2_partial`  `depth e ≤ b`, `b < maxDepth` ⊢ the emitted code `Runs` (Lemmas/Seq.lean) to
                               `evalSpec B e env` with `rec := runAt B b`: nested blocks (arguments, macro
                               bodies, f-string segments) are run by the callback one level down, and the
@@ -51,8 +52,10 @@ STILL NOT covered (`…_partial`):
     bound method on the stack; it is no value);
   * `has` / `coalesce` in method position (`o.has(..)`), loop variables (and parameters) that have the
     name of a built-in function or macro, type patterns naming no table type (`list`, `object`, `null`):
-    for the first two `check_for_const` of the modelled tree folds wrongly (two defects found by this
-    proof: `dyn([[1].has(1)])`, `[1].map(size, dyn([size]))`), see `methodOK` / `loopVarOK` in Model/Spec.lean;
+    for the first two the compile-time run of `check_for_const` meets a name it cannot resolve (two defects
+    found by this proof: `dyn([[1].has(1)])`, `[1].map(size, dyn([size]))`; repaired by fix 4d08d12 — such a
+    run is no longer folded — and the model follows, `markUnres`), but the proof's invariant `Irr` does not
+    hold for these trees and does not see the flag, see `methodOK` / `loopVarOK` in Model/Spec.lean;
   * a macro whose loop-variable argument is not an identifier;
   * functions bound by the caller and hence call logs (the log is shown to stay as it is), identifiers
     naming stored programs, environments without bindings;
